@@ -112,6 +112,9 @@ struct Cx<'tcx> {
     tcx: TyCtxt<'tcx>,
     types: Vec<String>,
     type_ix: HashMap<Ty<'tcx>, usize>,
+    // monomorphic instances of local const-generic functions met at call sites (work list)
+    instances: Vec<ty::Instance<'tcx>>,
+    inst_seen: std::collections::HashSet<ty::Instance<'tcx>>,
 }
 
 impl<'tcx> Cx<'tcx> {
@@ -205,6 +208,38 @@ impl<'tcx> Cx<'tcx> {
         };
         self.types[ix] = o.end();
         ix
+    }
+
+    /// name of a monomorphic instance of a local function that has const generic parameters and
+    /// is called with concrete arguments; None for everything else (analysed polymorphically)
+    fn instance_name(&self, inst: ty::Instance<'tcx>) -> Option<String> {
+        use rustc_middle::ty::TypeVisitableExt;
+        let did = inst.def_id();
+        if !did.is_local() || !matches!(inst.def, ty::InstanceKind::Item(_)) {
+            return None;
+        }
+        if !matches!(self.tcx.def_kind(did), DefKind::Fn | DefKind::AssocFn) {
+            return None;
+        }
+        if inst.args.has_non_region_param() {
+            return None;
+        }
+        let mut consts = Vec::new();
+        let mut has_ty = false;
+        for a in inst.args.iter() {
+            if let Some(c) = a.as_const() {
+                match c.try_to_target_usize(self.tcx) {
+                    Some(v) => consts.push(v.to_string()),
+                    None => consts.push(with_no_trimmed_paths!(c.to_string())),
+                }
+            } else if a.as_type().is_some() {
+                has_ty = true;
+            }
+        }
+        if consts.is_empty() || has_ty {
+            return None;
+        }
+        Some(format!("{}::<{}>", self.path(did), consts.join(", ")))
     }
 
     fn gargs(&mut self, args: ty::GenericArgsRef<'tcx>) -> String {
@@ -596,8 +631,15 @@ impl<'tcx> Cx<'tcx> {
                     match ty::Instance::try_resolve(self.tcx, env, did, gargs) {
                         Ok(Some(inst)) => {
                             let rd = inst.def_id();
+                            let iname = self.instance_name(inst);
+                            if iname.is_some() && self.inst_seen.insert(inst) {
+                                self.instances.push(inst);
+                            }
+                            if iname.is_some() {
+                                o = o.s("resolved_generic", self.path(rd));
+                            }
                             o = o
-                                .s("resolved", self.path(rd))
+                                .s("resolved", iname.unwrap_or_else(|| self.path(rd)))
                                 .b("resolved_local", rd.is_local())
                                 .s("resolved_kind", format!("{:?}", inst.def).split('(').next().unwrap_or("").to_string())
                                 .raw("resolved_args", self.gargs(inst.args));
@@ -766,6 +808,72 @@ impl<'tcx> Cx<'tcx> {
     }
 }
 
+impl<'tcx> Cx<'tcx> {
+    /// the body of a const-generic function with its generic arguments substituted
+    fn instance_entry(&mut self, inst: ty::Instance<'tcx>) -> Vec<String> {
+        let tcx = self.tcx;
+        let did = inst.def_id();
+        let ld = did.expect_local();
+        let name = match self.instance_name(inst) {
+            Some(n) => n,
+            None => return Vec::new(),
+        };
+        let env = TypingEnv::fully_monomorphized();
+        let kind = tcx.def_kind(did);
+        let body = tcx.optimized_mir(did);
+        let mono: mir::Body<'tcx> = inst.instantiate_mir_and_normalize_erasing_regions(
+            tcx,
+            env,
+            ty::EarlyBinder::bind(body.clone()),
+        );
+        let vis = tcx.visibility(did);
+        let sig = tcx.fn_sig(did).instantiate(tcx, inst.args).skip_norm_wip().skip_binder();
+        let ins: Vec<String> = sig.inputs().iter().map(|t| self.ty(*t).to_string()).collect();
+        let mut o = Obj::new()
+            .s("path", &name)
+            .s("def_kind", format!("{:?}", kind))
+            .s("name", tcx.opt_item_name(did).map(|s| s.to_string()).unwrap_or_default())
+            .s("instance_of", self.path(did))
+            .raw("instance_args", self.gargs(inst.args))
+            .b("pub", vis.is_public())
+            .s("vis", format!("{:?}", vis))
+            .b("reachable", tcx.effective_visibilities(()).is_reachable(ld))
+            .b("const_fn", tcx.is_const_fn(did))
+            .raw("inputs", arr(ins))
+            .n("output", self.ty(sig.output()))
+            .raw("generics", arr(Vec::<String>::new()));
+        if let Some(imp) = tcx.impl_of_assoc(did) {
+            let st = tcx.type_of(imp).instantiate_identity().skip_norm_wip();
+            o = o
+                .n("impl_self_ty", self.ty(st))
+                .b("derived", tcx.is_automatically_derived(imp));
+        }
+        let attrs = attr_names(tcx, did);
+        o = o.raw("attrs", arr(attrs.iter().map(|a| jstr(a))));
+        let b = self.body(&mono, env);
+        let mut out = vec![o.raw("body", b).end()];
+        let proms = tcx.promoted_mir(did);
+        for (pi, pb) in proms.iter_enumerated() {
+            let pm: mir::Body<'tcx> = inst.instantiate_mir_and_normalize_erasing_regions(
+                tcx,
+                env,
+                ty::EarlyBinder::bind(pb.clone()),
+            );
+            let b = self.body(&pm, env);
+            out.push(
+                Obj::new()
+                    .s("path", format!("{}::promoted[{}]", name, pi.as_usize()))
+                    .s("def_kind", "Promoted")
+                    .s("parent", &name)
+                    .n("promoted", pi.as_usize())
+                    .raw("body", b)
+                    .end(),
+            );
+        }
+        out
+    }
+}
+
 fn attr_names<'tcx>(tcx: TyCtxt<'tcx>, did: DefId) -> Vec<String> {
     let mut v = Vec::new();
     if tcx.is_automatically_derived(did) {
@@ -802,6 +910,8 @@ impl Callbacks for Extract {
             tcx,
             types: Vec::new(),
             type_ix: HashMap::new(),
+            instances: Vec::new(),
+            inst_seen: std::collections::HashSet::new(),
         };
 
         // ---- bodies
@@ -839,6 +949,15 @@ impl Callbacks for Extract {
                 }
                 _ => {}
             }
+        }
+
+        // ---- monomorphic instances of const-generic functions (work list: an instance may
+        // call further instances)
+        let mut done = 0;
+        while done < cx.instances.len() && done < 256 {
+            let inst = cx.instances[done];
+            done += 1;
+            bodies.extend(cx.instance_entry(inst));
         }
 
         // ---- ADTs and impls
